@@ -1,0 +1,40 @@
+//go:build verif
+
+package convert
+
+// Contracts for the deductive verifier in /verif (govc). Comments only; compiled only with the build tag "verif".
+
+//@ pure eqmsg(p *updogv1.Query_Expression) *updogv1.Query_Expression_Equal := p.Value.(*updogv1.Query_Expression_Eq).Eq
+//@ pure notmsg(p *updogv1.Query_Expression) *updogv1.Query_Expression_Not := p.Value.(*updogv1.Query_Expression_Not_).Not
+//@ pure andmsg(p *updogv1.Query_Expression) *updogv1.Query_Expression_And := p.Value.(*updogv1.Query_Expression_And_).And
+//@ pure ormsg(p *updogv1.Query_Expression) *updogv1.Query_Expression_Or := p.Value.(*updogv1.Query_Expression_Or_).Or
+
+// toExpr: total (no precondition: every decodable message, also incomplete ones), node-by-node image of the message.
+// Termination of the recursion (message trees are finite and acyclic) is not proved.
+//@ func [C14,C12,C13] toExpr(pbe) (result)
+//@   ensures [C14] incomplete_is_nil: (pbe == nil || pbe.Value == nil) ==> result == nil
+//@   ensures [C12,C13] eq_node: pbe != nil && typeof(pbe.Value) == ptrtag(updogv1.Query_Expression_Eq) ==>
+//@        typeof(result) == ptrtag(updog.ExprEqual) && iref(result) != nil && fresh(iref(result))
+//@        && (eqmsg(pbe) != nil ==> result.(*updog.ExprEqual).Column == eqmsg(pbe).Column && result.(*updog.ExprEqual).Value == eqmsg(pbe).Value)
+//@        && (eqmsg(pbe) == nil ==> result.(*updog.ExprEqual).Column == "" && result.(*updog.ExprEqual).Value == "")
+//@   ensures [C12,C13] not_node: pbe != nil && typeof(pbe.Value) == ptrtag(updogv1.Query_Expression_Not_) ==>
+//@        typeof(result) == ptrtag(updog.ExprNot) && iref(result) != nil && fresh(iref(result))
+//@   ensures [C12,C13] and_node: pbe != nil && typeof(pbe.Value) == ptrtag(updogv1.Query_Expression_And_) ==>
+//@        typeof(result) == ptrtag(updog.ExprAnd) && iref(result) != nil && fresh(iref(result))
+//@        && (andmsg(pbe) != nil ==> len(result.(*updog.ExprAnd).Exprs) == len(andmsg(pbe).Exprs))
+//@        && (andmsg(pbe) == nil ==> len(result.(*updog.ExprAnd).Exprs) == 0)
+//@   ensures [C12,C13] or_node: pbe != nil && typeof(pbe.Value) == ptrtag(updogv1.Query_Expression_Or_) ==>
+//@        typeof(result) == ptrtag(updog.ExprOr) && iref(result) != nil && fresh(iref(result))
+//@        && (ormsg(pbe) != nil ==> len(result.(*updog.ExprOr).Exprs) == len(ormsg(pbe).Exprs))
+//@        && (ormsg(pbe) == nil ==> len(result.(*updog.ExprOr).Exprs) == 0)
+//@   loop 1
+//@     invariant e != nil && !(e in old($alloc)) && len(e.Exprs) == $i && 0 <= $i
+//@     invariant arr(e.Exprs) == nil || !(arr(e.Exprs) in old($alloc))
+//@   loop 2
+//@     invariant e != nil && !(e in old($alloc)) && len(e.Exprs) == $i && 0 <= $i
+//@     invariant arr(e.Exprs) == nil || !(arr(e.Exprs) in old($alloc))
+
+//@ func [C14,C12,C13] ToQuery(pbq) (result)
+//@   ensures [C14] result != nil && fresh(result)
+//@   ensures [C12,C13] pbq != nil ==> result.GroupBy == pbq.GroupBy
+//@   ensures [C14] (pbq == nil || pbq.Expr == nil || pbq.Expr.Value == nil) ==> result.Expr == nil
